@@ -7,6 +7,7 @@ import TcVerif.Model.SoftFloat
 import TcVerif.Model.Store
 import TcVerif.Model.Gcra
 import TcVerif.Model.Bucket
+import TcVerif.Model.RespDriver
 open TcVerif
 
 structure DState where
@@ -117,7 +118,10 @@ def step (st : DState) (line : String) : DState × String :=
       let (b', a, rem) := Bucket.step st.bB st.bE st.bucket t q
       ({ st with bucket := b' }, s!"{a} {rem}")
     | _ => (st, "bad-op")
-  | _ => (st, "bad-op")
+  | _ =>
+    match TcVerif.Resp.driverStep line with
+    | some o => (st, o)
+    | none => (st, "bad-op")
 
 partial def loop (h : IO.FS.Stream) (out : IO.FS.Stream) (st : DState) : IO Unit := do
   let line ← h.getLine
